@@ -2,6 +2,9 @@
 C13_GSL := $(if $(wildcard /usr/include/gsl/gsl_rng.h),yes,)
 $(eval $(call HARNESS,c13_ranlux,$(V)/harness/C13/c13_ranlux.cpp,plain,$(if $(C13_GSL),-DC13_HAVE_GSL,),$(if $(C13_GSL),-lgsl -lgslcblas,)))
 $(eval $(call HARNESS,c13_runs,$(V)/harness/C13/c13_runs.cpp,plain,,))
+# the simulation object / photon source / re-emission classes used repeatedly inside one process
+$(eval $(call HARNESS,c13_inproc,$(V)/harness/C13/c13_inproc.cpp,plain,-fno-access-control,))
+$(B)/bin/c13_runs $(B)/bin/c13_inproc: $(V)/harness/C13/c13_problem.hpp
 # preload shim giving both runs of a pair the same calendar time (snapshot "Creation time")
 $(B)/bin/c13_fixedtime.so: $(V)/harness/C13/c13_fixedtime.c
 	@mkdir -p $(B)/bin
